@@ -61,8 +61,8 @@ Print Assumptions C20_clip_feasible_id.
 (* ------------------------------------------------------------------ adjust_moisture_content *)
 (* retentate + permeate is unchanged for every chemical and every outcome (normal return, clamp with
    strict = False, InfeasibleRegion), for Stream and MultiStream arguments *)
-Theorem C20_moisture_conserves : forall n mws R P w mc by_mass mwc strict,
-  wf_strm n R -> wf_strm n P -> (w < n)%nat ->
+Theorem C20_moisture_conserves : forall n n' mws R P w mc by_mass mwc strict,
+  wf_strm n R -> wf_strm n' P -> (w < n)%nat -> (w < n')%nat ->
   (by_mass = true -> ~ nthq mws w == 0) ->
   let m := adjust_moisture mws R P w mc by_mass mwc strict in
   forall i, nthq (total (m_ret m)) i + nthq (total (m_perm m)) i == nthq (total R) i + nthq (total P) i.
@@ -80,8 +80,8 @@ Print Assumptions C20_moisture_frame.
 (* with enough water in the permeate the call returns normally and the retentate reaches the requested
    moisture fraction: water mass = mc * total mass  (mw: the molecular weight the branch uses; the ID=None
    branch hard-codes 18.01528, so the chemical's own MW must agree with it) *)
-Theorem C20_moisture_reached : forall n mws R P w mc (by_mass : bool) mwc strict,
-  wf_strm n R -> wf_strm n P -> length mws = n -> (w < n)%nat ->
+Theorem C20_moisture_reached : forall n n' mws R P w mc (by_mass : bool) mwc strict,
+  wf_strm n R -> wf_strm n' P -> length mws = n -> (w < n)%nat -> (w < n')%nat ->
   ~ 1 - mc == 0 ->
   let mw := if by_mass then nthq mws w else mwc in
   0 < mw -> nthq mws w == mw ->
@@ -95,8 +95,8 @@ Proof. exact moisture_reached_lemma. Qed.
 Print Assumptions C20_moisture_reached.
 
 (* no negative flow after a normal return (including the strict = False clamp) *)
-Theorem C20_moisture_nonneg : forall n mws R P w mc (by_mass : bool) mwc strict,
-  wf_strm n R -> wf_strm n P -> length mws = n -> (w < n)%nat ->
+Theorem C20_moisture_nonneg : forall n n' mws R P w mc (by_mass : bool) mwc strict,
+  wf_strm n R -> wf_strm n' P -> length mws = n -> (w < n)%nat -> (w < n')%nat ->
   0 <= mc < 1 ->
   let mw := if by_mass then nthq mws w else mwc in
   0 < mw -> nthq mws w == mw ->
